@@ -756,6 +756,10 @@ func suiteTreeFaults(env *Env, res *Result) {
 		{"odd_replacement_list", "##!> include words -- a"},
 		{"flags_in_include", "##!> include withflags"},
 		{"missing_exclude_file", "##!> include-except words nosuchfile"},
+		// the faulty exclude file is reached when nothing is left to exclude
+		{"missing_exclude_file_after_all_excluded", "##!> include-except words allwords nosuchfile"},
+		{"missing_exclude_file_of_empty_include", "##!> include-except onlycomments nosuchfile"},
+		{"missing_exclude_file_first_of_two", "##!> include-except words nosuchfile allwords"},
 	}
 	var cases []*faultCase
 	for i := 0; i < n; i++ {
@@ -773,6 +777,8 @@ func suiteTreeFaults(env *Env, res *Result) {
 			continue
 		}
 		t.files["root/regex-assembly/include/withflags.ra"] = "##!+ i\nabc\n"
+		t.files["root/regex-assembly/exclude/allwords.ra"] = "ls\ncat\ntime\n  time\n"
+		t.files["root/regex-assembly/include/onlycomments.ra"] = "##! nothing here\n\n"
 		clone := func() Tree {
 			c := Tree{}
 			for k, v := range t.files {
